@@ -1,6 +1,8 @@
 package prove
 
 import (
+	"math/big"
+	"regexp/syntax"
 	"go/token"
 	"go/constant"
 	"go/types"
@@ -81,6 +83,7 @@ func OffsetShape(sig *types.Signature) bool {
 
 // successFacts: the call's error result is known nil here.
 func (c *Ctx) successFacts(call *ssa.Call) {
+	c.condCallFacts(call, condNilErr)
 	cc := call.Common()
 	sig := cc.Signature()
 	argOff := 0
@@ -682,6 +685,28 @@ func (w *World) resultLenRel(fn *ssa.Function, i int) []lenRel {
 			}
 		}
 	}
+	// len(result) == an integer parameter (take(n) / next(n) style helpers): encoded as param = -1-j, k = 0
+	for j, p := range fn.Params {
+		if _, _, isInt := isIntType(p.Type()); !isInt {
+			continue
+		}
+		all := true
+		for _, ret := range rets {
+			c := fi.ctxBefore(ret)
+			lf, pf := c.LenOf(ret.Results[i]), c.Lin(p)
+			if isNil(ret.Results[i]) {
+				all = false
+				break
+			}
+			if !(c.Prove(lin.GE(lf, pf)) && c.Prove(lin.LE(lf, pf))) {
+				all = false
+				break
+			}
+		}
+		if all {
+			out = append(out, lenRel{-1 - j, 0})
+		}
+	}
 	w.lenRelC[key] = out
 	return out
 }
@@ -700,6 +725,218 @@ func (c *Ctx) resultLenFacts(call *ssa.Call, i int, f lin.Form) {
 		return
 	}
 	for _, r := range c.FI.W.resultLenRel(fn, i) {
+		if r.param < 0 {
+			c.add(lin.EQ(f, c.Lin(cc.Args[-1-r.param]))...)
+			continue
+		}
 		c.add(lin.LE(f, c.LenOf(cc.Args[r.param]).AddK(-r.k)))
+	}
+}
+
+// RegexpPattern resolves the constant pattern of a *regexp.Regexp value: a
+// direct regexp.MustCompile/Compile(const) or a load of a package-level
+// variable that is stored exactly once in the module, in its package
+// initialiser, from such a call.
+func (w *World) RegexpPattern(v ssa.Value) (string, bool) {
+	if ex, ok := v.(*ssa.Extract); ok {
+		v = ex.Tuple
+	}
+	switch x := v.(type) {
+	case *ssa.Call:
+		n := staticName(x.Common())
+		if n == "regexp.MustCompile" || n == "regexp.Compile" {
+			if k, ok := x.Common().Args[0].(*ssa.Const); ok && k.Value != nil && k.Value.Kind() == constant.String {
+				return constant.StringVal(k.Value), true
+			}
+		}
+	case *ssa.UnOp:
+		g, ok := x.X.(*ssa.Global)
+		if !ok || x.Op != token.MUL {
+			return "", false
+		}
+		var pat string
+		stores := 0
+		scan := func(fn *ssa.Function) {
+			for _, b := range fn.Blocks {
+				for _, in := range b.Instrs {
+					st, ok := in.(*ssa.Store)
+					if !ok || st.Addr != ssa.Value(g) {
+						continue
+					}
+					stores++
+					if fn.Name() == "init" && fn.Pkg == g.Pkg {
+						if p, ok := w.RegexpPattern(st.Val); ok {
+							pat = p
+						}
+					}
+				}
+			}
+		}
+		if g.Pkg != nil {
+			if ini := g.Pkg.Func("init"); ini != nil {
+				scan(ini)
+			}
+		}
+		for _, fn := range w.Funcs {
+			if fn.Name() != "init" {
+				scan(fn)
+			}
+		}
+		if stores == 1 && pat != "" {
+			return pat, true
+		}
+	}
+	return "", false
+}
+
+// submatchGroups: call is (*regexp.Regexp).Find(String)Submatch on a regexp with
+// a resolvable constant pattern → number of elements of a non-nil result.
+func (w *World) submatchGroups(call *ssa.Call) (int, bool) {
+	switch staticName(call.Common()) {
+	case "(*regexp.Regexp).FindStringSubmatch", "(*regexp.Regexp).FindSubmatch":
+	default:
+		return 0, false
+	}
+	pat, ok := w.RegexpPattern(call.Common().Args[0])
+	if !ok {
+		return 0, false
+	}
+	re, err := syntax.Parse(pat, syntax.Perl)
+	if err != nil {
+		return 0, false
+	}
+	return re.MaxCap() + 1, true
+}
+
+// Conditional postconditions: for an in-module helper returning an integer (or
+// boolean) "verdict", the parameter-only constraints that hold at every return
+// UNDER THE ASSUMPTION that the result equals K. `if validPadding(buf, n) != 1
+// { return err }` then gives the caller what the helper established.
+// Candidates: p >= 0, p >= 1, p <= len(q), p + 1 <= len(q), len(q) >= 1 over
+// integer parameters p and slice/string parameters q.
+type condFact struct {
+	kind byte // 'n' p>=k ; 's' p+k<=len(q) ; 'l' len(q)>=k
+	p, q int
+	k    int64
+}
+
+func (w *World) condPost(fn *ssa.Function, resIdx int, K int64) []condFact {
+	if w.condC == nil {
+		w.condC = map[string][]condFact{}
+	}
+	key := fn.String() + "#" + string(rune('0'+resIdx)) + "=" + big.NewInt(K).String()
+	if r, ok := w.condC[key]; ok {
+		return r
+	}
+	w.condC[key] = nil
+	if fn.Blocks == nil || !w.P.InModule(fn) {
+		return nil
+	}
+	var ints, seqs []int
+	for i, p := range fn.Params {
+		if _, _, ok := isIntType(p.Type()); ok {
+			ints = append(ints, i)
+		} else if isSeq(p.Type()) {
+			seqs = append(seqs, i)
+		}
+	}
+	var cands []condFact
+	for _, p := range ints {
+		cands = append(cands, condFact{'n', p, 0, 0}, condFact{'n', p, 0, 1})
+		for _, q := range seqs {
+			for _, k := range []int64{0, 1, 2, 3, 4, 8} {
+				cands = append(cands, condFact{'s', p, q, k})
+			}
+		}
+	}
+	for _, q := range seqs {
+		cands = append(cands, condFact{'l', 0, q, 1})
+	}
+	fi := w.Info(fn)
+	alive := make([]bool, len(cands))
+	for i := range alive {
+		alive[i] = true
+	}
+	nret := 0
+	for _, b := range fn.Blocks {
+		ret, ok := b.Instrs[len(b.Instrs)-1].(*ssa.Return)
+		if !ok || resIdx >= len(ret.Results) {
+			continue
+		}
+		nret++
+		c := fi.ctxBefore(ret)
+		rv := ret.Results[resIdx]
+		if K == condNilErr {
+			if errDefinitelyNonNil(c, rv) {
+				continue
+			}
+		} else if bt, isB := rv.Type().Underlying().(*types.Basic); isB && bt.Kind() == types.Bool {
+			c.assume(rv, K != 0)
+		} else {
+			rf := c.Lin(rv)
+			c.add(lin.EQ(rf, lin.K(K))...)
+		}
+		if lin.Infeasible(c.Facts, fmLimit) {
+			continue // this return cannot produce K
+		}
+		for i, cd := range cands {
+			if !alive[i] {
+				continue
+			}
+			var g lin.Con
+			switch cd.kind {
+			case 'n':
+				g = lin.GE(c.Lin(fn.Params[cd.p]), lin.K(cd.k))
+			case 's':
+				g = lin.LE(c.Lin(fn.Params[cd.p]).AddK(cd.k), c.LenOf(fn.Params[cd.q]))
+			case 'l':
+				g = lin.GE(c.LenOf(fn.Params[cd.q]), lin.K(cd.k))
+			}
+			if !c.Prove(g) {
+				alive[i] = false
+			}
+		}
+	}
+	var out []condFact
+	if nret > 0 {
+		for i, cd := range cands {
+			if alive[i] {
+				out = append(out, cd)
+			}
+		}
+	}
+	w.condC[key] = out
+	return out
+}
+
+// condNilErr selects "the error result is nil" as the assumption of condPost.
+const condNilErr int64 = -1 << 40
+
+// condCallFacts: `call == K` is known to hold here.
+func (c *Ctx) condCallFacts(call *ssa.Call, K int64) {
+	cc := call.Common()
+	if cc.IsInvoke() {
+		return
+	}
+	fn := cc.StaticCallee()
+	if fn == nil || !c.FI.W.P.InModule(fn) || fn == c.FI.Fn || len(cc.Args) != len(fn.Params) {
+		return
+	}
+	resIdx := 0
+	if K == condNilErr {
+		resIdx = fn.Signature.Results().Len() - 1
+		if resIdx < 0 || fn.Signature.Results().At(resIdx).Type().String() != "error" {
+			return
+		}
+	}
+	for _, cd := range c.FI.W.condPost(fn, resIdx, K) {
+		switch cd.kind {
+		case 'n':
+			c.add(lin.GE(c.Lin(cc.Args[cd.p]), lin.K(cd.k)))
+		case 's':
+			c.add(lin.LE(c.Lin(cc.Args[cd.p]).AddK(cd.k), c.LenOf(cc.Args[cd.q])))
+		case 'l':
+			c.add(lin.GE(c.LenOf(cc.Args[cd.q]), lin.K(cd.k)))
+		}
 	}
 }
